@@ -38,9 +38,6 @@ func vfWrapKind(t tabular.Table, k int) tabular.Table {
 func VerifC10_wrappers() {
 	a := vfString("a", 1+vfTier(), vfTXT)
 	b := "b"
-	if vfTier() == 1 {
-		b = vfString("b", 1, vfTXT)
-	}
 	var t tabular.Table
 	create := 0
 	if vfTier() == 1 {
@@ -97,7 +94,7 @@ func VerifC10_wrappers() {
 	}
 	w := t
 	for d := 0; d < depth; d++ {
-		if vfTier() == 1 {
+		if vfTier() == 1 && d == 0 {
 			w = vfWrapKind(w, vfChoice(vfName("wrap", d), 5))
 		} else {
 			w = vfWrapKind(w, []int{0, 2, 3}[vfChoice(vfName("wrap", d), 3)])
